@@ -75,6 +75,7 @@ func cmdVisStress(c Cmd) (interface{}, error) {
 	}
 	diag := c.str("diag")
 	newCols := c.boolean("new_cols")
+	newColsN := int(c.i64("new_cols_n", 1)) // >1: every event brings that many column names nobody has seen before
 	verifhook.Set(func(point string, kv ...any) {
 		if point == "q.pull.check" {
 			return
@@ -149,6 +150,14 @@ func cmdVisStress(c Cmd) (interface{}, error) {
 					id := first + int64(k)
 					if newCols {
 						// a new column name every few events: flushes keep adding names to the open segment's column table
+						if newColsN > 1 {
+							fmt.Fprintf(&sb, "{\"index\":{\"_index\":%q}}\n{\"id\":%d,\"g\":%d,\"v\":%d", s.name, id, id%3, id)
+							for j := 0; j < newColsN; j++ {
+								fmt.Fprintf(&sb, ",\"c%d_%d\":%d", id, j, id)
+							}
+							fmt.Fprintf(&sb, ",\"timestamp\":%d}\n", 1700000000000+id*10)
+							continue
+						}
 						fmt.Fprintf(&sb, "{\"index\":{\"_index\":%q}}\n{\"id\":%d,\"g\":%d,\"v\":%d,\"c%d\":%d,\"timestamp\":%d}\n", s.name, id, id%3, id, id/7, id, 1700000000000+id*10)
 					} else {
 						fmt.Fprintf(&sb, "{\"index\":{\"_index\":%q}}\n{\"id\":%d,\"g\":%d,\"v\":%d,\"timestamp\":%d}\n", s.name, id, id%3, id, 1700000000000+id*10)
